@@ -8,8 +8,37 @@ EXPLANATION = ("loose::Store::find_inner: the Ok(Data) construction is cut off f
                "parsed loose header (one per branch: complete-in-one-go and continued inflate). loose::Store::finalize_object: the object id is the digest of "
                "the hash::Write that wrapped the compressed tempfile, the path is hash_path(id), the file reaches objects/ only through tempfile persist onto that "
                "path, and the only other file-system call is create_dir of its parent; write/write_buf/write_stream finalize the same writer they wrote header "
-               "and content to. Byte-exact git compatibility is not decided.")
+               "and content to; on the gix_odb functions reachable from those entry points the count returned by io::Read::read is compared with the constant 0 only "
+               "(a short read is not end-of-stream). Byte-exact git compatibility is not decided.")
 P = r"gix_odb::store_impls::loose::"
+
+
+READ = r"io::Read::read\??$|io::Read>::read$"
+
+
+def short_read_rule(chk, fns):
+    """(number of read calls, number of comparisons on their counts); reports comparisons of a read count with anything but the constant 0"""
+    n_reads = n_cmp = 0
+    for g in fns:
+        reads = g.calls_to(READ)
+        if not reads:
+            continue
+        n_reads += len(reads)
+        gfl = Flow(g)
+        for cm in comparisons(g):
+            for side, other in (("a", "b"), ("b", "a")):
+                if "p" not in cm[side]:
+                    continue
+                rs = [r for r in gfl.roots(cm[side], stop_named=False, sites=True) if r[0] == "call" and re.search(READ, r[1])]
+                if not rs:
+                    continue
+                n_cmp += 1
+                zero = "p" not in cm[other] and cm[other].get("v") == 0
+                if not zero and chk is not None:
+                    chk.ob("stream-copied-to-eof", "%s line %d" % (g.name, cm["line"]), False,
+                           "the count returned by read() is compared with something other than 0; a short read is not end-of-stream, the object would be stored truncated under a wrong id",
+                           "%s:%d" % (g.file, cm["line"]), key="short-read|%s" % g.name)
+    return n_reads, n_cmp
 
 
 def run(db, chk):
@@ -72,6 +101,21 @@ def run(db, chk):
             tgt = o.args[0] if not o.is_(r"WriteTo::write_to$|copy$") else o.args[1]
             chk.ob("content-goes-to-the-hashed-stream", "%s %s@%d" % (nm, o.name.split("::")[-1], o.line), wfl.derives_from_call(tgt, r"Store>::dest$"), "", o.where(), key="content-to-stream|%s|%s" % (nm, o.name.split("::")[-1]))
     chk.floor("content writes in write/write_buf/write_stream", n, 5)
+    # (5) the stream is copied to its end: only `read() == 0` means EOF.  Every io::Read::read call in the gix_odb functions reachable from the
+    # three write entry points may have its count compared with the constant 0 only (a short read is not the end of the stream).
+    entry = [db.one("^" + P + r"write::<impl gix_odb::traits::Write for gix_odb::store_impls::loose::Store>::%s$" % nm).key for nm in ("write", "write_buf", "write_stream")]
+    reach = db.reachable(entry, stop=lambda n_: not (n_.startswith("gix_odb::") or n_.startswith("<gix_odb::")))
+    fam = [g for g in db.by_crate["gix_odb"] if g.key in reach or g.name in reach]
+    chk.floor("gix_odb functions reachable from the loose write entry points", len(fam), 5)
+    n_reads, n_cmp = short_read_rule(chk, fam)
+    chk.set("read_calls_on_write_path", n_reads)
+    # positive control for a zero-expected rule: the matcher must recognise `read(..)` counts compared with 0 somewhere in the workspace
+    ctl = 0
+    for g in db.fns.values():
+        if g.crate in ("gix_features", "gix_packetline", "gix_pack", "gix_transport", "gix_filter") and g.calls_to(READ):
+            r_, c_ = short_read_rule(None, [g])
+            ctl += c_
+    chk.floor("control: read-count comparisons recognised elsewhere in the workspace", ctl, 1)
     d = db.one("^" + P + r"write::<impl gix_odb::store_impls::loose::Store>::dest$")
     chk.ob("hash-wraps-compressor", "dest()", bool(d.calls_to(r"hash::Write::<T>::new$|hash::write::Write::<T>::new$|hash::Write<T>>::new$")) and bool(d.calls_to(r"deflate::Write::<W>::new$|deflate::Write<W>>::new$")) and bool(d.calls_to(r"::tempfile_in$")),
            "dest() must build hash::Write(deflate::Write(tempfile in the objects dir))", "%s:%d" % (d.file, d.line), key="hash-wraps-compressor")
